@@ -104,15 +104,17 @@ def body(run):
         synth.write_tif(sfn, src, g.src_transform, mask=sm, **enc)
         synth.write_tif(rfn, ref.astype('float32'), g.ref_transform)
         try:
-            mbm, nblk = fz.pick_block_mem(sfn, rfn, 'src', rng.choice([1, 4, 9]), kshape)
-            res = fz.fuse(sfn, rfn, run.work / 'sg.tif', model=model, kernel_shape=kshape, proc_crs='src', max_block_mem=mbm, threads=rng.choice([1, 3]),
+            # (equal resolutions: `auto` resolves to the reference grid, which here coincides with the source grid pixel for pixel)
+            pc = ['src', 'auto', 'src', 'ref'][(k // 3) % 4]
+            mbm, nblk = fz.pick_block_mem(sfn, rfn, pc, rng.choice([1, 4, 9]), kshape)
+            res = fz.fuse(sfn, rfn, run.work / 'sg.tif', model=model, kernel_shape=kshape, proc_crs=pc, max_block_mem=mbm, threads=rng.choice([1, 3]),
                           param=False, model_config=dict(r2_inpaint_thresh=0.25))
         except Exception as ex:
             dist['skipped:' + type(ex).__name__] = dist.get('skipped:' + type(ex).__name__, 0) + 1
             continue
-        desc = dict(geom=g.describe(), model=model, kernel_shape=list(kshape), coefficients=[a, c], processing_grid='src', source_encoding=enc, blocks=nblk,
+        desc = dict(geom=g.describe(), model=model, kernel_shape=list(kshape), coefficients=[a, c], processing_grid=res['proc_crs'], requested_grid=pc, source_encoding=enc, blocks=nblk,
                     max_block_mem=mbm)
-        key = f'src-grid/{model}/{enc.get("encoding")}{enc.get("nodata", "")}'
+        key = f'same-grid/{res["proc_crs"]}/{model}/{enc.get("encoding")}{enc.get("nodata", "")}'
         dist[key] = dist.get(key, 0) + 1
         run.count_case(('sg', k), True, desc if k < 2 else None)
         exp = a * src[0].astype('float64') + c
